@@ -807,7 +807,7 @@ Proof.
 Qed.
 
 Theorem seq_roundtrip_file : forall cf its old rest sits vs vs', config_ok cf ->
-  seq_ok cf its rest sits vs vs' -> lits_plain its ->
+  seq_ok cf its rest sits vs vs' -> lits_ok cf its rest ->
   scan_file cf (skipn (length old) (fst (print_to_file cf old (length old) its) ++ rest)) (length old) sits []
   = SOk vs' (snd (print_to_file cf old (length old) its)).
 Proof.
@@ -897,7 +897,7 @@ Proof.
 Qed.
 
 Theorem wf_seq_roundtrip_file : forall cf its sits old rest, config_ok_float cf -> wf_seq cf its sits rest ->
-  lits_plain its ->
+  lits_ok cf its rest ->
   exists vs',
     scan_file cf (skipn (length old) (fst (print_to_file cf old (length old) its) ++ rest)) (length old) sits []
     = SOk vs' (snd (print_to_file cf old (length old) its))
